@@ -144,7 +144,34 @@ class S(nn.Module):
       lambda i, st: getattr(self, f'v_{i}'))
 
 
-CLS = {'A': A, 'B': B, 'S': S}
+class _ClsTable(dict):
+  """'A' | 'B' | 'S' | '<transform>:<base>' (e.g. 'jit:A'); transformed classes are
+  built on first use by the factory registered in TRANSFORMS."""
+
+  def __missing__(self, key):
+    t, base = key.split(':', 1)
+    c = TRANSFORMS[t](self[base])
+    self[key] = c
+    return c
+
+
+CLS = _ClsTable({'A': A, 'B': B, 'S': S})
+TRANSFORMS = {
+  'jit': lambda c: nn.jit(c),
+  'remat': lambda c: nn.remat(c),
+  'checkpoint': lambda c: nn.checkpoint(c, policy=None),
+}
+
+
+def base_cls(cls):
+  return cls.split(':', 1)[-1]
+
+
+def strip_transforms(d):
+  """The plain program: every 'T:X' class replaced by 'X'."""
+  return tuple(
+    (('child', base_cls(st[1]), strip_transforms(st[2])) + tuple(st[3:]))
+    if st[0] == 'child' else st for st in d)
 
 
 def make(cls, d, ki=False, **kw):
